@@ -13,7 +13,10 @@ NOrb(S, I, X) == Cardinality(OrbitsOfI(S, I, X))
 ChiComp(S, t, X) == NOrb(S, {t[1],t[2]}, X) - NOrb(S, {t[1],t[3]}, X) + NOrb(S, {t[2],t[3]}, X)
 LooplessOn(S, I, X) == \A d \in X, i \in I : Op(S,i,d) # d
 SphereComps(S, t) == \A X \in OrbitsOfI(S, {t[1],t[2],t[3]}, Chambers(S)) : LooplessOn(S, {t[1],t[2],t[3]}, X) /\ ChiComp(S, t, X) = 2
-BranchFree(S) == \A i \in 1..S.dim, d \in Chambers(S) : S.v[i][d] = 1
+\* no branching on ANY index pair: adjacent pairs carry v = 1 and non-adjacent operations never coincide on a chamber
+\* (s_i d = s_j d with |i-j| > 1 is a rotation axis of order 2)
+BranchFree(S) == /\ \A i \in 1..S.dim, d \in Chambers(S) : S.v[i][d] = 1
+                 /\ \A i, j \in Idx(S) : (j > i + 1) => \A d \in Chambers(S) : Op(S,i,d) # Op(S,j,d)
 Manifold3(S) == S.dim = 3 /\ IsDSet(S) /\ Complete(S) /\ Commuting(S) /\ SphereComps(S, <<0,1,2>>) /\ SphereComps(S, <<1,2,3>>)
 NTiles(S) == NOrb(S, {0,1,2}, Chambers(S))
 NVertices(S) == NOrb(S, {1,2,3}, Chambers(S))
